@@ -25,7 +25,8 @@ CHECKS = {
             'tolerant results checked for range/nesting; also a context with the less common parser '
             'classes the library ships (comma list, chars group, embellishments, verbatim environment '
             'body ...). Thorough adds 16 coverage-guided atheris campaigns with the span oracle inside '
-            'the target. Exhaustive within the token bound only.',
+            'the target. Constructed calls of all four contexts with a blank / newline before each '
+            'argument slot in turn. Exhaustive within the token bound only.',
             'Trusts the span checker (pv/spans.py, plain integer arithmetic on public attributes) '
             'and that % / \\ are the comment / escape characters.',
             'DESIGN.md 5 C01'),
@@ -61,7 +62,8 @@ CHECKS = {
             '60-line model; every built-in character singly under 60 option sets; the partial '
             'encoder against a token-copy model (default keep characters, and kept blanks); call '
             'histories through the cached module-level helper and through edits of the list '
-            'returned by get_builtin_conversion_rules().',
+            'returned by get_builtin_conversion_rules(); decomposed (non-NFC) inputs for the '
+            'partial encoder.',
             'Model interprets plain-data rule descriptors; replace/unihex outputs judged by '
             'predicate; no empty-match regex rules.',
             'DESIGN.md 5 C04'),
@@ -93,7 +95,9 @@ CHECKS = {
             'position. Generic form over all four contexts: the top-level nodes (but the last two) of '
             'the longest strictly parsable token prefix open the tolerant result unchanged (135k '
             'constructed prefix + breaker + tail inputs in quick). Thorough adds 16 atheris '
-            'campaigns with the same oracle inside the target.',
+            'campaigns with the same oracle inside the target. Inputs that are long in one dimension '
+            'are first parsed in a forked child that is killed after 90 s (they take milliseconds): '
+            'work inside the regular-expression engine is invisible to the work budget.',
             'Termination = bound on token-reader calls (200*(n+8)); prefix preservation is checked '
             'for prefixes closed by a group.',
             'DESIGN.md 5 C06'),
@@ -105,7 +109,9 @@ CHECKS = {
             'digits, punctuation, non-ASCII, accent macros, blanks, nested groups), crossed with a pairwise-covering (quick) or the '
             'full 240-element (thorough) option product; plus all soups <= 2/3 tokens and '
             'generated documents; thorough adds 16 atheris campaigns (raw text and token-level byte '
-            'decodings) with the oracle inside the target.',
+            'decodings) with the oracle inside the target. The work budget counts rendered nodes as '
+            'well as token reads; documents nested 10 and 22 deep in eight constructs; the exported '
+            'formatter callables attached to custom text specs.',
             'Default context databases and default tolerant parsing; termination decided by the '
             'read-count bound.',
             'DESIGN.md 5 C07'),
@@ -131,7 +137,9 @@ CHECKS = {
             'global argument-parser cache; every step equals the fresh-interpreter result and '
             'leaves the database snapshot unchanged; ordered pairs over ~70 documents chosen to '
             'leave a parser in the middle of something (unknown names, aborted arguments of every '
-            'parser class, verbatim arguments cut at nesting depth 1-3).',
+            'parser class, verbatim arguments cut at nesting depth 1-3); histories in which the default '
+            'database is built anew for every parse; recipes whose parse starts with ( ) as further '
+            'group delimiters; context-extending environments nested in one another.',
             'Finite document pool covering every argument parser class the library ships (state '
             'leaking only through other inputs is not seen); freeze() flag excluded from the '
             'snapshot.',
